@@ -34,9 +34,31 @@ N = {"quick": 5000, "thorough": 150000}
 
 
 def scenarios(tier, seed):
+    from engines import chainsim
+
     out = []
     for i in range(N[tier]):
         rng = rng_for(seed, PROP, i)
+        if i % 25 == 24:
+            # adaptive family (E2): metric adapters change the metric under the chain states
+            ch = chainsim.random_scenario(rng)
+            while ch["sampler"] == "generic":
+                ch = chainsim.random_scenario(rng)
+            spec = zoo.random_system_spec(rng, kinds=("con", "gcon"), dims=(3, 4))
+            ch["system"] = spec
+            ch["integrator"] = zoo.random_integrator_spec(rng, spec["kind"], step_size=rng.choice([0.05, 0.2]))
+            if ch["sampler"] in ("multinomial", "slice"):
+                ch["sampler_kwargs"]["max_tree_depth"] = min(2, ch["sampler_kwargs"]["max_tree_depth"])
+            ch["adapters"] = rng.choice([["dual", "var"], ["dual", "cov"], ["var"], ["cov", "dual"]])
+            ch["n_warm_up"] = rng.choice([6, 10, 16])
+            ch["n_main"] = rng.choice([1, 3])
+            ch["n_chain"] = rng.choice([1, 2, 3])
+            ch["n_process"] = rng.choice([1, 1, 1, 2])
+            ch["storage"] = "mem" if ch["n_process"] == 1 else ch["storage"]
+            ch["trace"] = "pos"
+            ch["log_metric_arrays"] = True
+            out.append({"family": "adaptive", "chain": ch})
+            continue
         spec = zoo.random_system_spec(rng, kinds=("con", "con", "gcon"), dims=(2, 3, 4))
         ispec = zoo.random_integrator_spec(rng, spec["kind"], step_size=rng.choice([0.05, 0.2, 0.5, 1.0]))
         ispec["n_inner_step"] = rng.choice([1, 1, 2, 3, 4])
@@ -73,8 +95,67 @@ def scenarios(tier, seed):
     return out
 
 
+def adaptive_run(scn):
+    """E2 family: sample_chains on a constrained system with metric adapters; every momentum that a
+    transition or an adapter's finalize leaves in a chain state must lie in the cotangent space of the
+    metric in force at that moment (re-evaluated from scratch, never through the state cache)."""
+    from engines import chainoracle as orc
+    from engines import chainsim
+
+    warnings.simplefilter("ignore")
+    np.seterr(all="ignore")
+    rec = chainsim.run_scenario_raw(scn["chain"])
+    stats = {"adaptive_runs": 1, "adaptive_momenta_checked": 0, "adaptive_discarded": 0, "chains": 0}
+    viols = []
+    if orc.documented_discard(rec) or rec.outcome != "returned":
+        stats["adaptive_discarded"] = 1
+        return {"violations": [], "stats": stats, "keys": [], "sample": {"family": "adaptive", "outcome": rec.outcome}, "evaluations": 1}
+    cname = scn["chain"]["system"]["constraint"]
+    c_fn, j_fn = zoo.CONSTRAINTS[cname][0], zoo.CONSTRAINTS[cname][1]
+    dim = scn["chain"]["system"]["dim"]
+
+    def residuals(pos, mom, m_arr):
+        minv = np.eye(dim) if m_arr is None else np.linalg.inv(m_arr)
+        J = np.asarray(j_fn(pos), dtype=float)
+        return float(np.max(np.abs(c_fn(pos)))), float(np.max(np.abs(J @ (minv @ mom)))), float(np.max(np.abs(J)))
+
+    def judge(pos, mom, m_arr, where):
+        if pos is None or mom is None or not (np.all(np.isfinite(pos)) and np.all(np.isfinite(mom))) or np.max(np.abs(mom)) > 1e8:
+            return None
+        c, cot, jn = residuals(pos, mom, m_arr)
+        stats["adaptive_momenta_checked"] += 1
+        lim = 1e-8 * (1.0 + float(np.max(np.abs(mom)))) * max(1.0, jn) * (1.0 if m_arr is None else max(1.0, float(np.linalg.cond(m_arr))))
+        if not (c < 1e-8):
+            return violation("off-manifold", f"{PROP} off-manifold:{where}", f"{where}: |c(q)| = {c:.3e}")
+        if not (cot < lim):
+            return violation("off-cotangent", f"{PROP} off-cotangent:{where}", f"{where}: |J M^-1 p| = {cot:.3e} >= {lim:.1e} under the metric in force")
+        return None
+
+    for e in rec.log.entries:
+        v = judge(e["state"].get("pos"), e["state"].get("mom"), e.get("metric_array"), f"after {e['trans']}")
+        if v:
+            viols.append(v)
+            break
+    if not viols:
+        for a in rec.log.adapter:
+            if a["ev"] == "finalize" and a.get("states_after") and a["adapter"].split("#")[0] in ("var", "cov"):
+                for sa in a["states_after"]:
+                    v = judge(sa.get("pos"), sa.get("mom"), a.get("metric_array"), f"momentum refreshed by {a['adapter'].split('#')[0]} adapter finalize")
+                    if v:
+                        viols.append(v)
+                        break
+            if viols:
+                break
+    keys = [digest(["adaptive", cname, scn["chain"].get("adapters"), scn["chain"]["n_chain"], scn["chain"]["n_process"]])] if stats["adaptive_momenta_checked"] else []
+    return {"violations": viols, "stats": stats, "keys": keys, "sample": {"family": "adaptive", "constraint": cname, "adapters": scn["chain"].get("adapters"),
+            "momenta_checked": stats["adaptive_momenta_checked"]}, "evaluations": 1}
+
+
 def run_scenario(scn):
     from checks.c02 import resolve_region
+
+    if scn.get("family") == "adaptive":
+        return adaptive_run(scn)
 
     warnings.simplefilter("ignore")
     np.seterr(all="ignore")
